@@ -405,4 +405,70 @@ theorem front_cls_correct_rmi_opt (opt : BitVec 32) (e : Entry) (ch : List Entry
       simpa [r32] using hb
   · simp at hok
 
+/-! ### options that do not touch the emitters at all -/
+
+/-- `EmitModSib` reads only the REX-forcing bit of the options -/
+theorem emitModSib_lowopt (opt : BitVec 32) (hopt : opt &&& 0xFF000000#32 = 0#32) (c : Model.X86.Ctx) (pre : List (BitVec 8)) (ao : Nat)
+    (opcode opReg rbReg rxReg rmInfo : BitVec 32) (m : Mem) (imm : BitVec 64) (n : Nat) (vs dw : Bool) :
+    emitModSib c pre ao opcode opt opReg rbReg rxReg rmInfo m imm n vs dw = emitModSib c pre ao opcode 0#32 opReg rbReg rxReg rmInfo m imm n vs dw := by
+  have h : opt &&& oRex = 0#32 := by simp only [oRex]; bv_decide
+  have h0 : (0#32 : BitVec 32) &&& oRex = 0#32 := by decide
+  simp only [emitModSib, h, h0]
+
+/-- `vex()` changes nothing in `EmitVexEvexM` for an instruction that does not prefer EVEX: every memory-form class theorem admits it -/
+theorem emitVexEvexM_vexopt (c : Model.X86.Ctx) (opcode opReg : BitVec 32) (m : Mem) (imm : BitVec 64) (n : Nat) (hpe : c.preferEvex = false) :
+    emitVexEvexM c opcode oVex opReg m imm n = emitVexEvexM c opcode 0#32 opReg m imm n := by
+  have e1 : extractLLMMMMM opcode oVex = extractLLMMMMM opcode 0#32 := by simp only [extractLLMMMMM, oEvex, oVex]; bv_decide
+  have e2 : ∀ x, vexEvexMPrefix c x opcode oVex m = vexEvexMPrefix c x opcode 0#32 m := by
+    intro x
+    have : ∀ x', vexPrep x' opcode oVex = vexPrep x' opcode 0#32 := by intro x'; simp only [vexPrep, oVex, oVex3]; bv_decide
+    simp only [vexEvexMPrefix, this]
+  have e3 := emitModSib_lowopt oVex (by decide) c
+  unfold emitVexEvexM
+  simp only [e1, e2, e3, hpe, Bool.false_and, Bool.false_eq_true, ↓reduceIte,
+    show (oVex &&& (oZMask ||| oER ||| oSAE) != 0#32) = false from by decide,
+    show ((0#32 : BitVec 32) &&& (oZMask ||| oER ||| oSAE) != 0#32) = false from by decide]
+
+/-- the legacy emitters read only bits 24..31 of the options (REX control): `long_form()`, `short_form()`, `mod_mr()`, `mod_rm()` change no byte -/
+theorem legacy_emit_lowopt (opt : BitVec 32) (hopt : opt &&& 0xFF000000#32 = 0#32) :
+    (∀ op a b i n, emitX86R op opt a b i n = emitX86R op 0#32 a b i n) ∧
+    (∀ c op a m i n, emitX86M c op opt a m i n = emitX86M c op 0#32 a m i n) ∧
+    (∀ op i n, emitX86Op op opt i n = emitX86Op op 0#32 i n) ∧
+    (∀ op a i n, emitX86OpReg op opt a i n = emitX86OpReg op 0#32 a i n) := by
+  have e : ∀ op, extractRex op opt = extractRex op 0#32 := by intro op; simp only [extractRex]; bv_decide
+  refine ⟨?_, ?_, ?_, ?_⟩
+  · intro op a b i n; simp only [emitX86R, e]
+  · intro c op a m i n
+    unfold emitX86M
+    simp only [e, emitModSib_lowopt opt hopt]
+  · intro op i n; simp only [emitX86Op, e]
+  · intro op a i n; simp only [emitX86OpReg, e]
+
+/-! ### `long_form()` on the legacy immediate forms: the class takes the long encoding whatever the value; by `legacy_emit_lowopt` the bytes
+are those of the option-free emission the theorems `front_cls_correct_arith_imm`, `front_cls_correct_arith_mi`, `front_cls_correct_mov_ri` speak about -/
+
+theorem dispatch_long (c : Model.X86.Ctx) (row : Row) (k : RegKind) (i : Nat) (m : Mem) (v : BitVec 64)
+    (hk : k = .gpw ∨ k = .gpd ∨ k = .gpq) (hfit : k = .gpq → isInt32of64 v = true) :
+    let imm1 := if kindSize k == 4 then signExtendInt32 v else v
+    let opc : BitVec 32 := if kindSize k == 2 then 0x80#32 ||| kPP_66 else if kindSize k == 8 then 0x80#32 ||| kW else 0x80#32
+    (row.encoding = 0x19 → dispatch c row oLongForm (.reg (rtypeOf k) i) (.imm v) .none .none =
+        emitX86R (opc + 1#32) oLongForm ((row.mainOp >>> 18) &&& 7#32) (r32 i) imm1 (min (kindSize k) 4)) ∧
+    (row.encoding = 0x2c → k = .gpq → dispatch c row oLongForm (.reg (rtypeOf k) i) (.imm v) .none .none =
+        emitX86OpReg (addPrefixBySize 0xB8#32 8) oLongForm (r32 i) v 8) := by
+  intro imm1 opc
+  have hks : kindSize .gpw = 2 ∧ kindSize .gpd = 4 ∧ kindSize .gpq = 8 := by decide
+  refine ⟨fun henc => ?_, fun henc hq => ?_⟩
+  · rcases hk with h | h | h <;> subst h <;>
+      (simp only [imm1, opc, hks.1, hks.2.1, hks.2.2]
+       simp [dispatch, henc, sig3, Op.kind, Op.id, Op.rmSize, Op.immVal, rtypeOf, oLongForm, hfit, kPP_66, kW])
+  · subst hq
+    simp [dispatch, henc, sig3, Op.kind, Op.id, Op.rmSize, Op.isGp, Op.immVal, rtypeOf, oLongForm]
+
+theorem dispatch_long_mi (c : Model.X86.Ctx) (row : Row) (m : Mem) (v : BitVec 64) (henc : row.encoding = 0x19)
+    (hsz : m.size = 1 ∨ m.size = 2 ∨ m.size = 4 ∨ m.size = 8) :
+    dispatch c row oLongForm (.mem m) (.imm v) .none .none =
+      emitX86M c (addPrefixBySize (if m.size != 1 then 0x81#32 else 0x80#32) m.size) oLongForm ((row.mainOp >>> 18) &&& 7#32) m
+        (if m.size == 4 then signExtendInt32 v else v) (min m.size 4) := by
+  rcases hsz with hs | hs | hs | hs <;> simp [dispatch, henc, sig3, Op.kind, Op.rmSize, Op.immVal, hs, oLongForm]
+
 end AsmjitVerif.Props.C01
